@@ -3,10 +3,10 @@ import common
 from props import c10
 
 RULE = ("the C10 stream (every rendering records the line on which each command, argument, value and list element starts; LF and "
-        "CRLF texts; blank lines, comment lines, trailing comments, multi-line arguments and quoted strings) parsed alternately by a "
+        "CRLF texts and texts that mix line-break conventions; blank lines, comment lines, trailing comments, multi-line arguments and quoted strings) parsed alternately by a "
         "fresh Parser and by ONE Parser object re-used for the whole history (also after failed parses); plus models with one "
-        "injected fault whose location is known by construction (8 fault kinds, multi-line commands, blank/comment padding): the "
-        "line carried by the error and the line the command-line tool marks with '-->'. non-trivial = distinct text with >= 2 lines and >= 1 argument")
+        "injected fault whose location is known by construction (14 fault kinds: load-time and validation faults, list arguments and nested lists opening on a later line, Metadata read through Command.metadata, run-time faults in commands that are not leaves; multi-line commands, blank/comment padding): the "
+        "line carried by the error and the line the command-line tool marks with '-->' (its whole context display is compared with Model/Cli.v); every step of the re-used Parser object is compared with Model/ParserObj.v. non-trivial = distinct text with >= 2 lines and >= 1 argument")
 TRUSTED = c10.TRUSTED
 ASSUMPTIONS = ["line ends LF or CRLF (the theorem's hypothesis; bare-CR files are outside)"]
 
